@@ -182,7 +182,10 @@ def must_precede(fn, is_before, is_after, unroll=1):
 
 def path_nodes(p):
     """statement nodes and the calls nested in them in execution order"""
+    if p._nodes is not None:
+        return p._nodes
     out = []
+    p._nodes = out
     for e in p.events:
         if e.kind in ("stmt", "return", "raise"):
             from ..paths import _calls_postorder
